@@ -50,3 +50,15 @@ package keyvalue
 //@   safety_off
 //@   modifies *
 //@   assert at "err = db.ProcessRange(ctx, first, last, &storage.ChunkOp{}, func(c *storage.Chunk) error {": len(first) == len(keyBeg) + 3 && first[len(first) - 1] == 0 && len(last) == len(keyEnd) + 3 && last[len(last) - 1] == 0 && first[0] == keyStandard && last[0] == keyStandard
+
+// PutData (C05): the store API reports a stored empty value exactly like an absent key (Get returns nil
+// for both), so what is handed to the store must be non-empty for the key to be readable afterwards.
+// OPEN KNOWN FINDING: an empty value serialises to zero bytes, the POST is acknowledged, and afterwards
+// the key is listed by keys/keyrange and found by HEAD but GET answers 404 and keyrangevalues omits it
+// (/verif/known_findings.json, witness /verif/replay/C05/empty_value_witness_test.go).
+//@ func Data.PutData
+//@   prop C05
+//@   requires d != nil
+//@   safety_off
+//@   modifies *
+//@   assert at "return db.Put(ctx, tk, serialization)": len(serialization) > 0
